@@ -471,7 +471,11 @@ class Parser:
         if (int_str.startswith("0") and int_str != '0'
                 and not int_str.startswith("0x")):
             int_str = "0o" + int_str[1:]
-        pyvalue = int(int_str, 0)
+        try:
+            pyvalue = int(int_str, 0)
+        except ValueError:
+            raise CDefError("invalid integer constant for %r: %r" %
+                            (name, int_str))
         if neg:
             pyvalue = -pyvalue
         self._add_constants(name, pyvalue)
